@@ -1,7 +1,9 @@
 """C20 - shared pieces of the replayer: the corpus of bases, and the concretisation of the fault descriptors
 that TLC (specs/Ident.tla, Mode="gen") prints.  Nothing here decides anything: a descriptor names a base, a
-place and a value CLASS; this module turns it into bytes (BUILDING.md rule (d)), using a rng derived from the
-check's seed and the descriptor itself, so that every input can be rebuilt from (seed, descriptor)."""
+place and a value CLASS; this module turns it into bytes (BUILDING.md rule (d)).  The rng of a flip / random
+string is derived from the DESCRIPTOR ONLY: the universe of inputs is fixed, the check's seed only selects which
+descriptors of it the quick tier runs (the thorough tier runs them all), so no seed can reach an input - hence a
+crash site of the unchanged tree - that the thorough tier does not reach."""
 import hashlib
 import json
 import os
@@ -66,8 +68,8 @@ def write_bases_for_tlc(bases, path):
 
 
 # ------------------------------------------------------------------------------------------------------
-def _rng(seed, key):
-    return random.Random("%d|%s" % (seed, key))
+def _rng(key):
+    return random.Random("c20|" + key)
 
 
 def _bin_value(cls, n, be, orig, flen):
@@ -183,7 +185,7 @@ def _rand(rng, fl, n):
     raise KeyError(fl)
 
 
-def concretise(case, bases_by_id, seed):
+def concretise(case, bases_by_id):
     """case = [b, ops, truth] as printed by Ident.tla -> bytes"""
     b = case["b"]
     base = bases_by_id.get(b)
@@ -208,7 +210,7 @@ def concretise(case, bases_by_id, seed):
         elif k == "flip":
             if not data:
                 continue
-            rng = _rng(seed, "flip|%s|%d|%d|%s|%d" % (b, j, op["n"], op["c"], op["i"]))
+            rng = _rng("flip|%s|%d|%d|%s|%d" % (base["name"], j, op["n"], op["c"], op["i"]))
             w = op["c"]
             if w == "tables" and base["regions"]:
                 r = rng.choice(base["regions"])
@@ -222,7 +224,7 @@ def concretise(case, bases_by_id, seed):
             for q in range(p, min(p + op["n"], len(data))):
                 data[q] = rng.choice((0, 0xFF, 0x80, 0x7F, rng.randrange(256), data[q] ^ (1 << rng.randrange(8))))
         elif k == "rand":
-            rng = _rng(seed, "rand|%s|%d|%d" % (op["c"], op["n"], op["i"]))
+            rng = _rng("rand|%s|%d|%d" % (op["c"], op["n"], op["i"]))
             data = bytearray(_rand(rng, op["c"], op["n"]))
         else:
             raise tlc.MachineryError("unknown fault op %r" % (op,))
